@@ -54,7 +54,7 @@ def generate(seed, tier, index):
     spec = gen.gen_spec(rs, dict(n_species=(1, 5), n_reactions=(0, 2), max_cells=24, graph_nodes=(1, 8), graph_edges=(0, 8),
                                  chem="mixed"))
     m0 = Model(spec)
-    klass = rs.wchoice([("mixed", 5), ("tiny", 2), ("int", 2), ("large", 1), ("frac", 1)])
+    klass = rs.wchoice([("mixed", 5), ("tiny", 2), ("int", 2), ("large", 2), ("frac", 1)])
     spec["state"] = gen_state(rs, m0.ns, m0.nc, klass)
     exact_int = all(v == math.floor(v) for v in spec["state"])
     # exact-integer workloads: state written in molecules so that no unit round trip touches the integers
@@ -178,6 +178,11 @@ def check(case, results):
                 z = np.zeros_like(lam)
                 z[pos] = (mean[pos] - lam[pos]) * np.sqrt(K / lam[pos])
                 stats["poisson_entries_tested"] = int(pos.sum())
+                # pooled over the whole run (global_check): a small common bias of the mean, e.g. a truncated normal used
+                # in place of the Poisson law for large means, is invisible per entry
+                big = lam >= 100.0
+                stats["g"] = {"pm_num": float((tot[pos] - K * lam[pos]).sum()), "pm_den": float(K * lam[pos].sum()),
+                              "pmb_num": float((tot[big] - K * lam[big]).sum()), "pmb_den": float(K * lam[big].sum())}
                 # exact test: the sum of K independent Poisson(lam) draws is Poisson(K*lam)
                 worst_p, worst_d = 1.0, None
                 for d in np.argwhere(pos):
@@ -240,6 +245,21 @@ def check(case, results):
                                          "detail": "the redistribution loop exceeded its budget"}))
     stats["nontrivial"] = 1 if len(seeds) >= 2 else 0
     return viol, stats
+
+
+def global_check(total):
+    out, info = [], {}
+    g = total.get("g") or {}
+    for nm, what in (("pm", "all entries"), ("pmb", "entries with mean >= 100")):
+        if g.get(nm + "_den", 0) > 1000:
+            z = g[nm + "_num"] / math.sqrt(g[nm + "_den"])
+            info["pooled_poisson_mean_z (%s)" % what] = z
+            if abs(z) > ZMAX:
+                out.append({"class": "violation", "oracle": "C14.pooled-poisson-mean",
+                            "detail": "Poisson mode, %s: pooled (draw - real amount) = %.1f over an expected variance of %.3g "
+                                      "(z=%.1f): the draws do not have the real-valued amount as mean" % (
+                                          what, g[nm + "_num"], g[nm + "_den"], z)})
+    return out, info
 
 
 def describe(case):
